@@ -282,3 +282,8 @@ Definition similarity (M : m33 R) (s : R) : Prop :=
 Definition rotation (M : m33 R) : Prop := similarity M 1 /\ mdet ROps M = 1%R.
 Definition reflection (M : m33 R) : Prop := similarity M 1 /\ mdet ROps M = (-1)%R.
 Definition scaling (lam : R) : m33 R := ((lam, 0, 0), (0, lam, 0), (0, 0, lam))%R.
+
+(* four points are coplanar: the (translated) tet volume of the four points vanishes.
+   Stated on the determinant so that Model.v does not depend on generated code. *)
+Definition coplanar (q0 q1 q2 q3 : v3 R) : Prop :=
+  det3 ROps (vsub ROps q1 q0) (vsub ROps q2 q0) (vsub ROps q3 q0) = 0%R.
